@@ -294,6 +294,10 @@ type Harness struct {
 	// watchdog (the code under test may hang, blow the stack or exhaust memory
 	// when the property is violated).
 	Isolated bool
+	// NoConfirm: a violation of this harness is conclusive when observed once
+	// (purity checks: a differing output of the real code cannot be "unobserved",
+	// and map-iteration or timing dependent failures need not recur on replay).
+	NoConfirm bool
 	// Serial harnesses are explored by a single goroutine.
 	Serial bool
 	// MaxExecs caps the number of executions (0 = none); hitting it is recorded
@@ -461,7 +465,10 @@ func (e *Explorer) Explore() *Stats {
 				}
 				c := &Ctx{Tier: e.Tier, Seed: e.Seed, prefix: prefix, st: ls, h: h, Verbose: e.Verbose}
 				h.runOnce(c)
-				if len(c.trace) < len(prefix) {
+				if len(c.trace) < len(prefix) && len(c.viol) == 0 {
+					// (an execution that reported a violation may stop early: code under
+					// test with hidden global state legitimately diverges from the
+					// execution that recorded the prefix - that is what it is reported for)
 					fmt.Fprintf(os.Stderr, "mc: FATAL nondeterminism: execution ended after %d choice points, prefix has %d (harness %s)\n", len(c.trace), len(prefix), h.Name)
 					os.Exit(2)
 				}
